@@ -118,6 +118,6 @@ def run(tier, seed, replay=None):
                       "step by step on a real ProviderCache with gated sources, comparing List(), Get results, Refresh results and "
                       "source-call counts after every step; non-trivial = contains at least one publication")
     ck.cov["exhaustive"] = True
-    ck.assumptions += ["TTL steps use real time (10 ms per clock unit); behaviours whose timing was disturbed are re-run up to 3 times and otherwise counted inconclusive",
+    ck.assumptions += ["TTL steps use real time (10 ms per clock unit); behaviours whose timing was disturbed are re-run up to 5 times with a doubled clock unit each time and otherwise counted inconclusive",
                        "at most one call is parked on the writer lock at a time (Go leaves the wake-up order of several blocked senders open)"]
     return ck
